@@ -279,11 +279,18 @@ def run_task(pid, sub: Sub, tier, seed, shard, nshards, open_entries):
                     acc.harness.append(f"health check: {e}")
                 except hypothesis.errors.Flaky as e:  # same case passed on re-run
                     if acc.last_fail is not None:
+                        # budget ran out while shrinking (later cases return early): report the
+                        # smallest failing case seen so far under its own kind
                         v, case = acc.last_fail
+                        suffix = "" if acc.inconclusive else ":flaky"
                         violations.append(
-                            {"kind": v.kind + ":flaky", "message": v.message, "tags": v.tags,
+                            {"kind": v.kind + suffix, "message": v.message, "tags": v.tags,
                              "case": case}
                         )
+                        acc.done_kinds.add(v.kind)
+                        if acc.inconclusive:
+                            break
+                        continue
                     else:
                         acc.harness.append(f"flaky: {e}")
                 break
